@@ -101,6 +101,12 @@ struct Case {
     /// side, so every selected sink still has to end up with the whole record
     #[serde(default)]
     short: Option<u8>,
+    /// the sinks are plain `io::Write` values behind the library's own `Mutex<W>` MakeWriter (one
+    /// mutex per sink, shared by every leaf that names the sink): a writer holds the lock from
+    /// make_writer until it is dropped, so the pieces of two records never interleave in a sink
+    /// (only tee-free expressions and line-oriented formats)
+    #[serde(default)]
+    mutex: bool,
 }
 
 const TGT: [&str; 2] = ["a", "c"];
@@ -149,10 +155,45 @@ impl<'a> MakeWriter<'a> for Sink {
     }
 }
 
+/// a plain writer (no MakeWriter of its own) that accepts at most `cap` bytes per call
+struct RawW {
+    log: Arc<Mutex<Vec<SinkEv>>>,
+    cap: usize,
+}
+impl io::Write for RawW {
+    fn write(&mut self, buf: &[u8]) -> io::Result<usize> {
+        let n = if self.cap > 0 { buf.len().min(self.cap) } else { buf.len() };
+        self.log.lock().unwrap().push(SinkEv::Write { bytes: buf[..n].to_vec(), thread: vp_rec::tag(), wid: usize::MAX });
+        // let another thread in, if the lock that should keep it out is not held
+        std::thread::yield_now();
+        Ok(n)
+    }
+    fn flush(&mut self) -> io::Result<()> {
+        Ok(())
+    }
+}
+/// hands out the library's `Mutex<W>` writers for a mutex shared between leaves
+struct SharedMutex(Arc<Mutex<RawW>>);
+impl<'a> MakeWriter<'a> for SharedMutex {
+    type Writer = <Mutex<RawW> as MakeWriter<'a>>::Writer;
+    fn make_writer(&'a self) -> Self::Writer {
+        <Mutex<RawW> as MakeWriter<'a>>::make_writer(&self.0)
+    }
+    fn make_writer_for(&'a self, m: &Metadata<'_>) -> Self::Writer {
+        <Mutex<RawW> as MakeWriter<'a>>::make_writer_for(&self.0, m)
+    }
+}
+thread_local! {
+    static MUTEXES: std::cell::RefCell<Option<Vec<Arc<Mutex<RawW>>>>> = const { std::cell::RefCell::new(None) };
+}
+
 fn build_writer(w: &W, sinks: &[Sink]) -> BoxMakeWriter {
     let tmask = |mask: u8| move |m: &Metadata<'_>| TGT.iter().position(|t| m.target() == *t || (*t == "a" && m.target() == "a::b")).map(|i| mask >> i & 1 == 1).unwrap_or(false);
     match w {
-        W::Sink(i) => BoxMakeWriter::new(sinks[*i as usize % 3].clone()),
+        W::Sink(i) => match MUTEXES.with(|m| m.borrow().as_ref().map(|v| v[*i as usize % 3].clone())) {
+            Some(m) => BoxMakeWriter::new(SharedMutex(m)),
+            None => BoxMakeWriter::new(sinks[*i as usize % 3].clone()),
+        },
         W::MaxLevel(a, l) => BoxMakeWriter::new(build_writer(a, sinks).with_max_level(vp_rec::level_of_rank(*l))),
         W::MinLevel(a, l) => BoxMakeWriter::new(build_writer(a, sinks).with_min_level(vp_rec::level_of_rank(*l))),
         W::Filter(a, mask) => BoxMakeWriter::new(build_writer(a, sinks).with_filter(tmask(*mask))),
@@ -448,13 +489,15 @@ fn run_case(case: &Case) -> Outcome {
         Some(c) => 5 + c as usize % 60,
         _ => 0,
     };
-    let _ = has_tee;
     let sinks: Vec<Sink> = (0..3).map(|i| Sink { log: Default::default(), cap: if cap == 0 { 0 } else { [cap, 0, cap * 2 + 3][i] } }).collect();
     let mut opts_run = case.opts;
     if case.shared.is_some() {
         opts_run.span_events = 0; // whoever drops the last clone would emit the shared root's close record
     }
+    let mutex = case.mutex && !has_tee(&case.writer) && case.fmt != Fmt::Pretty;
+    MUTEXES.with(|m| *m.borrow_mut() = if mutex { Some(sinks.iter().map(|s| Arc::new(Mutex::new(RawW { log: s.log.clone(), cap: s.cap }))).collect()) } else { None });
     let layer = build_layer(case.fmt, opts_run, build_writer(&case.writer, &sinks));
+    MUTEXES.with(|m| *m.borrow_mut() = None);
     let dispatch = tracing_core::Dispatch::new(Registry::default().with(layer));
     let nthreads = case.threads.len();
     let barrier = Arc::new(Barrier::new(nthreads));
@@ -581,6 +624,25 @@ fn run_case(case: &Case) -> Outcome {
     // judge
     for (si, sink) in sinks.iter().enumerate() {
         let log = sink.log.lock().unwrap().clone();
+        if mutex {
+            // one lock per writer: while a record of one thread is incomplete no other thread's
+            // bytes may arrive in this sink
+            let mut open: Option<(u8, Vec<u8>)> = None;
+            for e in &log {
+                if let SinkEv::Write { bytes, thread, .. } = e {
+                    match &mut open {
+                        Some((t, acc)) if *t != *thread => {
+                            return Outcome::fail("records of two threads interleave in a sink behind the library's Mutex writer", format!("sink {si}: thread {thread} wrote {:?} while thread {t}'s record {:?} was incomplete; case = {}", String::from_utf8_lossy(bytes), String::from_utf8_lossy(acc), serde_json::to_string(case).unwrap_or_default()));
+                        }
+                        Some((_, acc)) => acc.extend_from_slice(bytes),
+                        None => open = Some((*thread, bytes.clone())),
+                    }
+                    if open.as_ref().map_or(false, |(_, acc)| acc.ends_with(b"\n")) {
+                        open = None;
+                    }
+                }
+            }
+        }
         for t in 0..nthreads {
             let mine: Vec<&SinkEv> = log.iter().filter(|e| matches!(e, SinkEv::Make { thread, .. } | SinkEv::Write { thread, .. } if *thread == t as u8)).collect();
             // expected records for this sink and thread, with multiplicity
@@ -609,13 +671,21 @@ fn run_case(case: &Case) -> Outcome {
             // (without a byte cap every write call is a record of its own; with a tee the same sink
             // hands out several writers before the first write)
             let singles: Vec<&Vec<u8>> = mine.iter().filter_map(|e| if let SinkEv::Write { bytes, .. } = e { Some(bytes) } else { None }).collect();
-            let writes: Vec<&Vec<u8>> = if sink.cap == 0 { singles } else { groups.iter().filter(|g| g.1 > 0).map(|g| &g.0).collect() };
+            // behind the library's mutex no make_writer call is visible: the thread's bytes are
+            // cut into lines instead
+            let lines_owned: Vec<Vec<u8>> = if mutex {
+                let all: Vec<u8> = singles.iter().flat_map(|b| b.iter().copied()).collect();
+                all.split_inclusive(|b| *b == b'\n').map(|l| l.to_vec()).collect()
+            } else {
+                vec![]
+            };
+            let writes: Vec<&Vec<u8>> = if mutex { lines_owned.iter().collect() } else if sink.cap == 0 { singles } else { groups.iter().filter(|g| g.1 > 0).map(|g| &g.0).collect() };
             let fail = |sig: String, d: String| Outcome::fail(sig, format!("sink {si}, thread {t}: {d}; case = {}", serde_json::to_string(case).unwrap_or_default()));
-            if makes.len() != exp.len() {
+            if !mutex && makes.len() != exp.len() {
                 let sig = if makes.len() > exp.len() { "writer factory asked for a record the writer expression does not route to this sink (or asked twice)" } else { "record not routed to a sink the writer expression selects" };
                 return fail(sig.into(), format!("{} make_writer calls, expected {} (levels/targets {:?})", makes.len(), exp.len(), exp.iter().map(|w| (w.level, w.ti)).collect::<Vec<_>>()));
             }
-            for (m, w) in makes.iter().zip(exp.iter()) {
+            for (m, w) in makes.iter().zip(exp.iter()).filter(|_| !mutex) {
                 let tg = [TGT[0], TGT[1], "a::b"][w.ti];
                 if !m.2 || m.0 != w.level || m.1 != tg {
                     return fail("make_writer_for not called with the event's own metadata".into(), format!("got (level {}, target {:?}, with metadata: {}), expected (level {}, {:?})", m.0, m.1, m.2, w.level, tg));
@@ -632,6 +702,9 @@ fn run_case(case: &Case) -> Outcome {
         }
     }
     let mut classes = vec![format!("{:?}", case.fmt)];
+    if mutex {
+        classes.push("library_mutex_writer".into());
+    }
     if case.threads.iter().any(|p| p.panic_first) {
         classes.push("aborted_record_before".into());
     }
@@ -677,13 +750,15 @@ impl Property for C13 {
         let ev = (1u8..=5, 0u8..2, any::<i64>(), "[a-z0-9]{1,8}").prop_map(|(level, target, k, s)| Ev { level, target, k, s });
         let prog = (0u8..4, any::<u64>(), "[a-z]{1,6}", any::<i64>(), any::<bool>(), proptest::bool::weighted(0.25), proptest::collection::vec(ev, 1..5), proptest::option::weighted(0.4, (0u8..8, 0u8..3, -5i64..100)), proptest::option::weighted(0.3, 100i64..200)).prop_map(|(depth, rid, who, n, flag, panic_first, events, late, late_again)| Prog { depth, rid, who, n, flag, panic_first, events, late, late_again });
         let maxt = tier.pick(4usize, 8usize);
-        (fmt_, opts, w_strategy(), proptest::collection::vec(prog, 1..=maxt), proptest::option::weighted(0.08, (0u8..8, 0u8..8, 0i64..50)), proptest::option::weighted(0.15, any::<u8>()))
-            .prop_map(|(fmt, mut opts, writer, threads, shared, short)| {
+        (fmt_, opts, w_strategy(), proptest::collection::vec(prog, 1..=maxt), proptest::option::weighted(0.08, (0u8..8, 0u8..8, 0i64..50)), proptest::option::weighted(0.15, any::<u8>()), proptest::bool::weighted(0.12))
+            .prop_map(|(fmt, mut opts, writer, threads, shared, short, mutex)| {
                 if fmt == Fmt::Json {
                     opts.ansi = false;
                 }
                 let shared = if threads.len() >= 2 { shared } else { None };
-                Case { fmt, opts, writer, threads, shared, short }
+                // (behind the mutex a record only takes several write calls with short sinks)
+                let short = if mutex && short.is_none() { Some(3) } else { short };
+                Case { fmt, opts, writer, threads, shared, short, mutex }
             })
             .boxed()
     }
@@ -691,7 +766,7 @@ impl Property for C13 {
         run_case(case)
     }
     fn rule(&self) -> String {
-        "case = formatter {full,compact,pretty,json} x options {target,level,thread ids/names,file,line,ansi,fixed timer on/off,span events NEW/ENTER/EXIT/CLOSE} x writer expression of depth <=3 over 3 recording sinks {Sink,with_max_level,with_min_level,with_filter(target),and,or_else,BoxMakeWriter} x 1-4 (thorough 1-8) concurrently started threads, each: 0-3 nested spans with fields, optional first event whose Debug panics (caught), 1-4 events (level x target x fields k,s) through the real macros, optionally a field of one of its spans recorded (once or twice) before a generated event; in 8 % of the multi-thread cases all threads work inside clones of one root span into which one thread records a value with a slow Debug impl while the others emit. in 15 % of the cases the sinks accept only 5-64 bytes per write call (tee-free writer expressions). non-trivial: writer depth >= 2, some thread nests >= 2 spans, >= 2 threads; distinct by case".into()
+        "case = formatter {full,compact,pretty,json} x options {target,level,thread ids/names,file,line,ansi,fixed timer on/off,span events NEW/ENTER/EXIT/CLOSE} x writer expression of depth <=3 over 3 recording sinks {Sink,with_max_level,with_min_level,with_filter(target),and,or_else,BoxMakeWriter} x 1-4 (thorough 1-8) concurrently started threads, each: 0-3 nested spans with fields, optional first event whose Debug panics (caught), 1-4 events (level x target x fields k,s) through the real macros, optionally a field of one of its spans recorded (once or twice) before a generated event; in 8 % of the multi-thread cases all threads work inside clones of one root span into which one thread records a value with a slow Debug impl while the others emit. in 15 % of the cases the sinks accept only 5-64 bytes per write call (different limits per sink, also under tees); in 12 % the sinks are plain writers behind the library's Mutex<W> MakeWriter (tee-free expressions, line-oriented formats): no other thread's bytes may arrive while a record is incomplete. non-trivial: writer depth >= 2, some thread nests >= 2 spans, >= 2 threads; distinct by case".into()
     }
     fn assumptions(&self) -> Vec<String> {
         vec![
